@@ -77,8 +77,6 @@ def c17Parse : List String → Option Op
     some (.msg (.chanUpd { scid := nat! scid, dir := c17b dir, disabled := c17b dis, ts := nat! ts, cltv := nat! cltv, htlcMin := nat! mn, htlcMax := nat! mx, feeBase := nat! fb, feeProp := nat! fp, chainOk := c17b ch, dontForward := c17b df, verify := c17b vf, signer := nat! signer }))
   | ["na", node, ts, pl, vf, so] =>
     some (.msg (.nodeAnn { node := nat! node, ts := nat! ts, payload := nat! pl, verify := c17b vf, sigOk := c17b so }))
-  | ["fc", scid, now] => some (.failPermanent (nat! scid) (nat! now))
-  | ["fn", id, now] => some (.nodeFailPermanent (nat! id) (nat! now))
   | ["pr", t] => some (.pruneAt (nat! t))
   | _ => none
 
@@ -160,6 +158,17 @@ def c17 : Drv where
       match c17Snapshot rest with
       | some s => let r := Impl.applySnapshot st.a.g s; (st.next { st.a with g := r.1 } none, c17ShowOutcome r.2)
       | none => (st, "bad-op")
+    | [k, x, now] =>
+      -- fc / fn = permanent, tc / tn = non-permanent payment failure through handle_network_update
+      let u : Option Impl.NetUpd :=
+        if k == "fc" then some (.channelFailure (nat! x) true) else if k == "tc" then some (.channelFailure (nat! x) false)
+        else if k == "fn" then some (.nodeFailure (nat! x) true) else if k == "tn" then some (.nodeFailure (nat! x) false) else none
+      match u with
+      | none => (st, "bad-op")
+      | some u =>
+        match Impl.netUpdateOp u (nat! now) with
+        | some op => let r := Async.step st.a (.base op); (st.next r.1 (Order.movedScid st.a.g op r.2), c17ShowOutcome r.2)
+        | none => (st, "done")
     | _ =>
       match c17ParseAsync ws with
       | some (a, fid) => let r := Async.step st.a (.annAsync a fid); (st.next r.1 none, c17ShowOutcome r.2)
